@@ -207,7 +207,7 @@ func (c *c11Reg) msgLines() {
 			c.msgOne(plain, vlibc11.Marshal(w), "corpus")
 		}
 	}
-	n := vlib.Budget(6000, 90000)
+	n := vlib.Budget(6000, 75000)
 	for i := 0; i < n; i++ {
 		b, kind := c.body(i)
 		c.msgOne(plain, b, kind)
